@@ -160,10 +160,26 @@ def spec_term(spec: Dict, ind, rows: List[Dict]) -> str:
 def falsify(ctx, case: Dict) -> bool:
     spec, rows = case["spec"], case["rows"]
     bad = None
+    feed = case.get("feed", "batch")
     try:
         with core.time_limit(30):
-            ind = X.build(spec, X.mk_rows(rows), {})
-            ind.calculate()
+            if feed == "batch":
+                ind = X.build(spec, X.mk_rows(rows), {})
+                ind.calculate()
+            elif feed == "single":
+                # the same definition must hold for an indicator that met the stream candle by candle
+                ind = X.build(spec, [], {})
+                for r in rows:
+                    ind.append(X.mk_rows([r]))
+            else:
+                # ... and on a collapsing timeframe fed candle by candle, against the definition
+                # evaluated over the independently resampled candles
+                from .props.C03 import expected as resampled
+                ind = X.build(spec, [], {"tf": "T%d" % case["tfk"]})
+                for r in rows:
+                    ind.append(X.mk_rows([r]))
+                rows = [{"ts": t, "open": o, "high": h, "low": l, "close": c, "volume": v, "inds": {}}
+                        for (t, o, h, l, c, v) in resampled(rows, 60 * case["tfk"])]
     except Exception as e:  # noqa
         bad = {"relation": "raises", "exc": type(e).__name__}
         ind = None
@@ -190,7 +206,9 @@ def falsify(ctx, case: Dict) -> bool:
     if bad:
         sig = {"kind": spec["kind"], **bad}
         sig["input"] = "late" if case.get("late") else "from-start"
-        ctx.fail(sig, f"{spec} n={len(rows)} late={case.get('late')}: {bad}" + (f" at {detail}" if ind is not None else ""),
+        if feed != "batch":
+            sig["feed"] = feed
+        ctx.fail(sig, f"{spec} n={len(rows)} late={case.get('late')} feed={feed}: {bad}" + (f" at {detail}" if ind is not None else ""),
                  {"case": case}, size=len(rows))
         return True
     return False
@@ -231,7 +249,14 @@ def gen_case(rng, ctx, kinds: List[str]) -> Dict:
             r["inds"]["zsrc"] = rng.choice([0.0, 0]) if zero else rng.choice([1.5, -2.25, 3.0, 0.5])
         else:
             r["inds"]["zsrc"] = rng.choice([0.0, 0.0, 0, 1.5, -2.25, 3.0, 0.5])
-    return {"spec": spec, "cfg": {}, "rows": rows, "late": late, "meta": {"kind": kind, "n": n, "late": late}}
+    feed = rng.choice(["batch", "batch", "batch", "single", "tf"])
+    if feed == "tf" and spec["kw"].get("input_value", "close") not in ("open", "high", "low", "close", "volume"):
+        feed = "single"        # readings carried by raw candles do not survive a merge
+    case = {"spec": spec, "cfg": {}, "rows": rows, "late": late, "feed": feed,
+            "meta": {"kind": kind, "n": n, "late": late, "feed": feed}}
+    if feed == "tf":
+        case["tfk"] = rng.choice([2, 3])
+    return case
 
 
 def run(ctx: core.Ctx, prop: str, kinds: List[str], n_quick: int, n_thorough: int) -> int:
@@ -262,6 +287,7 @@ def run(ctx: core.Ctx, prop: str, kinds: List[str], n_quick: int, n_thorough: in
         dist[k] = dist.get(k, 0) + 1
         if c.get("late"):
             dist["late-input"] = dist.get("late-input", 0) + 1
+        dist["feed=" + c.get("feed", "batch")] = dist.get("feed=" + c.get("feed", "batch"), 0) + 1
         ctx.seen({"spec": c["spec"], "rows": c["rows"]}, len(c["rows"]) >= 2 * c["spec"]["kw"].get("period", 2))
         if len(ctx.samples) < 3 and len(c["rows"]) > 10:
             ctx.sample({"spec": c["spec"], "n": len(c["rows"]), "late": c.get("late"), "first_rows": c["rows"][:2]})
